@@ -225,6 +225,7 @@ func TestVerifAvmGen(t *testing.T) {
 	fmt.Fprintf(&sb, "Definition max_byte_math_size : N := %d.\n", maxByteMathSize)
 	fmt.Fprintf(&sb, "Definition back_branch_enabled_version : N := %d.\n", backBranchEnabledVersion)
 	fmt.Fprintf(&sb, "Definition proto_byte : N := %d.\n", protoByte)
+	fmt.Fprintf(&sb, "Definition shared_resources_version : N := %d.\n", sharedResourcesVersion)
 	fmt.Fprintf(&sb, "Definition mode_sig : N := %d.\nDefinition mode_app : N := %d.\n\n", int(ModeSig), int(ModeApp))
 
 	sb.WriteString("(* every distinct OpSpec value occurring in OpSpecs or in opsByOpcode[v] (incl. SubOps);\n   index 0 is the zero OpSpec (op == nil) *)\nDefinition spec_pool : list opspec := [\n")
